@@ -26,14 +26,23 @@ META = {
     "tied to pydra/compose/shell/{task,builder,templating}.py and pydra/utils/general.py by generating task definitions through "
     "shell.define/shell.arg/shell.outarg and comparing the argv handed to subprocess.run (thorough: also the argv a real child "
     "receives) with the model and with an independent Python oracle; the Lean reference Spec.commandArgs is compared with that oracle on every case.",
+    "text2": "Argstr TEXT: parseArgstr's segments render back to the text minus '...' (C22_parse_roundtrip), templated = \"{\" in text "
+    "(C22_parse_wf), literal pieces are brace-free pieces of the text (C22_parse_pieces), brace-free text is one literal (C22_parse_plain); "
+    "C22_commandArgs_text_partial restates the main theorem on the text users write.  Extended model (Argv/ModelX.lean, driver op runx): "
+    "formatter= as an uninterpreted function (C22_formatter_args: what it is called with; C22_formatter_lands: its stripped/squeezed result is "
+    "re-tokenised as the field's contribution), bool on a File-union omitted (C22_omit_fileunion_bool), readonly (C22_readonly), outarg "
+    "path_template resolved by PathTemplate.resolve (C22_outarg_template), conversions/format specs as keys answered by Python's format() "
+    "(parameter xenv), allowed_values and the mandatory rule (prepare); C22_extended_partial = the main theorem on the lowered definition; "
+    "C22_lower_base/_position: lowering is the identity on base fields and never touches positions.",
     "note": "Trusted: Lean kernel; hand-written model (Argv/Model.lean, PositionSort.lean, Shlex.lean); the Python oracle "
     "harness/engines/argv.py:spec_argv; generator reach (no formatter / readonly / allowed_values / format specs / xor).",
     "rule": "case = (definition: up to 6 fields of kinds bool/str/int/float/Path/list/MultiInputObj/outarg with argstr None/''/plain/"
     "templated/cross-referencing/'...', explicit + implicit + negative positions, separators; value assignment over the safe "
     "alphabet); distinct by canonical JSON; non-trivial = at least two set fields or a list field set",
     "assumptions": [
+        "extended features: format() of a value for a key with conversion/spec, and formatter bodies, are parameters of the model (the harness computes them with Python); format specs only on scalar int/float fields; requires=/xor= are C31's",
         "values are non-empty words over a shlex-inert alphabet (C23 covers the rest)",
-        "no formatter=, readonly=, allowed_values=, xor=, format specs or conversions in argstrs",
+        "no xor=/requires= (C31), no attribute/item lookups or {{ }} escapes in argstrs",
         "a MultiInputObj field repeats its argstr per element also without '...' (as the code does)",
     ],
     "trusted": ["model of _command_args/_format_arg/position_sort/remaining_positions written by hand (lean/PydraModel/Argv)"],
@@ -59,6 +68,19 @@ OBLIGATIONS = [
         "C22_list_repeated",
         "C22_list_joined",
         "C22_scalar_plain",
+        "C22_parse_roundtrip",
+        "C22_parse_wf",
+        "C22_parse_pieces",
+        "C22_parse_plain",
+        "C22_commandArgs_text_partial",
+        "C22_extended_partial",
+        "C22_lower_position",
+        "C22_omit_fileunion_bool",
+        "C22_formatter_args",
+        "C22_formatter_lands",
+        "C22_readonly",
+        "C22_outarg_template",
+        "C22_lower_base",
         "C22_witness_D26",
         "C22_witness_D41",
         "C22_witness_D41_int",
